@@ -6,7 +6,7 @@ from giscanner import ast
 
 MT = 'giscanner.maintransformer.MainTransformer.'
 
-inline('giscanner.ast.Type.is_equiv', 'giscanner.ast.Type.__eq__', 'giscanner.ast.Type._compare',
+inline('giscanner.ast.Type.clone', 'giscanner.ast.Type.is_equiv', 'giscanner.ast.Type.__eq__', 'giscanner.ast.Type._compare',
        'giscanner.ast.Type.__ne__', 'giscanner.ast.Type.resolved')
 
 contract(MT + '_get_transfer_default_param',
@@ -261,3 +261,50 @@ contract(MT + '_pass3_callable_callbacks', params={'self': 'MainTransformer', 'n
          note='DN/SC/TR/CL: destroy name, scope, transfer and closure name of parameter K as a left fold over the parameter '
               'list: a destroy notify sets destroy/notified/none on the most recent plain callback before it, an untyped '
               '`...data` pointer sets its closure; NUL: a parameter named as a closure becomes nullable unless (not nullable)')
+
+
+# ------------------------------------------------------------------------------------------------
+# C type spellings -> canonical introspection types (the table ast.type_names is the real dictionary, read at verification time)
+TR = 'giscanner.transformer.Transformer.'
+TABLE = 'ast.type_names'
+
+
+def table_entry(ctype):
+    return ast.type_names.get(ctype)
+
+
+contract(TR + '_canonicalize_ctype', params={'self': 'Transformer', 'ctype': 'str'}, returns='str', props=('C02',),
+         pure_keys=['ctype'],
+         ensures={
+             'C02.canon.known_spelling_maps_to_its_fundamental':
+                 "implies(table_entry(ctype) is not None, result == table_entry(ctype).target_fundamental)",
+             'C02.canon.unknown_non_pointer_is_kept': "implies(table_entry(ctype) is None and not ctype.endswith('*'), result == ctype)",
+             'C02.canon.pointers_are_canonicalised_under_the_star':
+                 "implies(table_entry(ctype) is None and ctype.endswith('*'), result == self._canonicalize_ctype(ctype[:-1]) + '*')",
+         },
+         note='recursive: the call on the pointee goes by this contract')
+contract(TR + '_create_bare_container_type', params={'self': 'Transformer', 'base': 'str', 'ctype': 'str?', 'is_const': 'bool|int',
+                                                     'complete_ctype': 'str?'}, returns='Type?', fresh_result=True, trusted=True,
+         ensures={'keeps_ctype': 'implies(result is not None, result.ctype == ctype and result.complete_ctype == complete_ctype)',
+                  'a_container': 'result is None or isinstance(result, (ast.Array, ast.List, ast.Map))'},
+         note='GList / GSList / GHashTable / GArray ... recognised by name')
+
+CANON = 'self._canonicalize_ctype(ctype)'
+contract(TR + 'create_type_from_ctype_string',
+         params={'self': 'Transformer', 'ctype': 'str', 'is_const': 'bool|int', 'is_parameter': 'bool', 'is_return': 'bool',
+                 'complete_ctype': 'str?'}, returns='Type', props=('C02',),
+         let={'canon': CANON, 'base': "('gboolean' if %s in ('_Bool', 'bool') else %s.replace('*', ''))" % (CANON, CANON),
+              'strv': "(is_return and %s == 'utf8*') or %s.replace('*', '') == 'GStrv'" % (CANON, CANON)},
+         ensures={
+             'C02.ctype.original_spelling_is_kept_as_c_type': 'result.ctype == ctype and result.complete_ctype == complete_ctype',
+             'C02.ctype.bool_is_gboolean': "implies(canon in ('_Bool', 'bool'), result.target_fundamental == 'gboolean')",
+             'C02.ctype.returned_string_vector_is_an_array_of_utf8':
+                 "implies(strv, isinstance(result, ast.Array) and result.element_type.target_fundamental == 'utf8' and "
+                 "result.element_type.ctype is None)",
+             'C02.ctype.table_types_become_their_fundamental':
+                 "implies(not strv and table_entry(base) is not None, not isinstance(result, ast.Array) and "
+                 "result.target_fundamental == table_entry(base).target_fundamental)",
+             'C02.ctype.unknown_types_stay_unresolved':
+                 "implies(not strv and table_entry(base) is None and not isinstance(result, (ast.Array, ast.List, ast.Map)), "
+                 "result.target_fundamental is None and result.target_giname is None)",
+         })
